@@ -553,3 +553,41 @@ def presence_guard_check(repo, tier, seed):
             'undecided': [] if len(obs) >= 4 else [{'function': 'per/oer MembersType.decode_additions', 'kind': 'vacuous',
                                                     'reason': 'fewer than 4 decoder reads found in the addition loops'}],
             'coverage': {'obligations': [o[0] for o in obs]}}
+
+
+# ------------------------------------------------------------------------------------------------------------
+def preprocess_coverage_check(repo, tier, seed):
+    """C13: every type of every module goes through every in-place pre-processing pass *in the same compile*
+    (otherwise a second compile of the same dictionary sees a differently processed dictionary).  Data-flow
+    obligations on codecs/compiler.py::Compiler.pre_process: the descriptor list handed to the passes is
+    module['types'].values() itself (no filter), and each pass is called with it."""
+    import ast
+    from .program import Program
+    prog = Program(repo)
+    m = prog.module_by_relpath('asn1tools/codecs/compiler.py')
+    f = m.classes['Compiler'].methods.get('pre_process')
+    obs, viol = [], []
+    if f is None:
+        return {'name': 'pre_process coverage', 'obligations': 0, 'discharged': 0, 'violations': [], 'functions': [],
+                'undecided': [{'function': 'Compiler.pre_process', 'kind': 'shape', 'reason': 'not found'}], 'coverage': {}}
+    assigns = {}
+    for n in ast.walk(f.node):
+        if isinstance(n, ast.Assign) and isinstance(n.targets[0], ast.Name):
+            assigns.setdefault(n.targets[0].id, []).append(n.value)
+    td = assigns.get('type_descriptors', [])
+    ok = len(td) == 1 and ast.unparse(td[0]) == 'types.values()' and \
+        any(ast.unparse(v) == "module['types']" for v in assigns.get('types', []))
+    obs.append(('all-types-reach-the-passes', ok, "type_descriptors is not module['types'].values() itself: %s" %
+                [ast.unparse(v)[:70] for v in td]))
+    for pass_name in ('pre_process_components_of', 'pre_process_extensibility_implied', 'pre_process_default_value'):
+        calls = [c for c in ast.walk(f.node) if isinstance(c, ast.Call) and isinstance(c.func, ast.Attribute) and c.func.attr == pass_name]
+        ok = len(calls) == 1 and any(isinstance(a, ast.Name) and a.id == 'type_descriptors' for a in calls[0].args)
+        obs.append(('pass-%s-gets-all-types' % pass_name, ok, '%s is not called once with the full descriptor list' % pass_name))
+    for name, ok, why in obs:
+        if not ok:
+            viol.append({'obligation': f.ident + '/' + name, 'function': f.ident, 'verdict': 'data-flow obligation failed',
+                         'solver_output': why, 'inputs': None})
+    return {'name': 'pre_process coverage', 'obligations': len(obs), 'discharged': sum(1 for o in obs if o[1]), 'violations': viol,
+            'functions': [{'function': f.ident, 'source_sha256': f.sha, 'paths': 1, 'obligations': len(obs),
+                           'discharged': sum(1 for o in obs if o[1]), 'outcomes': {}, 'seconds': 0.0, 'inlined_callees': []}],
+            'undecided': [], 'coverage': {'obligations': [o[0] for o in obs]}}
